@@ -10,7 +10,8 @@ LEVEL_TEXT = ('Static path and sibling-agreement rules over nautilus/prior.py: a
               'declaration cannot have modified the prior (no protected write reaches a raise), '
               'every appended key was tested for uniqueness, keys and dists grow together, only '
               'ValueError/TypeError are raised, link targets are declared and resolved to a '
-              'non-link, and the three classifiers agree on free/fixed/link entries.')
+              'non-link, and the three classifiers agree on free/fixed/link entries.'
+              ' Plus: declared values never tested for truthiness, inverse CDF of the own coordinate (linear form of the isf/ppf argument), uniform(loc=low, scale=high-low) for ranges, free-branch conditions decided by what a declaration must provide (isf).')
 
 ALLOWED = {'ValueError', 'TypeError'}
 
